@@ -31,6 +31,14 @@ func VerifC10Partition(h *verifh.H) {
 	ents := vEntities(n)
 	src := &vSource{batches: [][]*server.Entity{ents}, failAt: -1}
 	tr := &vTransform{par: p, mode: mode}
+	if h.Param("sched", 0) == 1 {
+		// the order in which the parallel workers finish is arbitrary: a symbolic choice under
+		// gosx; natively the worker holding the first entity is slowed down
+		h.SymbolicSched(0)
+		if !h.Symbolic() {
+			tr.slowHead = ents[0]
+		}
+	}
 	sink := &vSink{failBatch: -1}
 	pl := &IncrementalPipeline{PipelineSpec{source: src, sink: sink, transform: tr, batchSize: n}}
 	j := &job{id: "job-c10", title: "c10", pipeline: pl, runner: runner}
